@@ -435,6 +435,7 @@ def oracle(case, obs):
             if a.get("validator_saw") is not None and a["validator_saw"] != canon_dict(merged):
                 k = _first_diff(a["validator_saw"], canon_dict(merged))
                 bad.append((_precedence_sig("validator", k, layers, a["validator_saw"]), f"{where}: the validator was shown {a['validator_saw']}, documented merge gives {canon_dict(merged)}"))
+                exp_md = _decanon(a["md"])  # resynchronise so that one defect is not reported under other names
                 continue
             if not accepts:
                 if a["n_starts"] or a["o"] == "started":
@@ -626,9 +627,9 @@ def _cases(ctx):
         for f in sorted(d.glob("*.json")):
             yield json.loads(f.read_text())["case"]
     yield from exhaustive_cases()
-    for _ in range(ctx.budget(700, 12000)):
+    for _ in range(ctx.budget(500, 12000)):
         yield gen_case(ctx.rng)
-    for _ in range(ctx.budget(60, 800)):
+    for _ in range(ctx.budget(50, 800)):
         yield gen_case(ctx.rng, malformed=True)
 
 
